@@ -636,9 +636,32 @@ class convert_to_dot_bracket:
                 "use numeral_definition_all(name.split('_'))"]},
         {"when": "after", "at": "i, order = map(", "label": "parsed", "do": ["assert i == VI and order == VJ"]},
         {"when": "before", "at": "return self.__make_dot_bracket(regions, orders)", "label": "read-back",
-         "do": ["forall a | use esum_witness(P0, a, max_order) | "
-                "assert implies(0 <= a and a < len(regions), var_by_region_order[(a, orders[a])].varValue == 1)",
-                "assert proper(regions, orders)"]},
+         "do": [
+             # every region has a variable with value 1 (its one-level constraint holds; sum of 0/1 values: lemma esum_witness)
+             "forall a | assert implies(0 <= a and a < len(regions), esum_witness_pre(P0, a, max_order) and esum(a, max_order) >= 1)",
+             "forall a | use esum_witness(P0, a, max_order) | assert implies(0 <= a and a < len(regions), "
+             "exists(lambda o: 0 <= o and o < max_order and var_by_region_order[(a, o)].varValue == 1))",
+             # ... which problem.variables() lists, so the loop has seen it
+             "forall a, o | assert implies(0 <= a and a < len(regions) and 0 <= o and o < max_order, occurs_at(P0, var_by_region_order[(a, o)], a, o))",
+             "forall a, o | assert implies(0 <= a and a < len(regions) and 0 <= o and o < max_order, "
+             "0 <= variables_pos[ident(var_by_region_order[(a, o)])] and variables_pos[ident(var_by_region_order[(a, o)])] < len(VL) "
+             "and VL[variables_pos[ident(var_by_region_order[(a, o)])]] is var_by_region_order[(a, o)] and GI[ident(var_by_region_order[(a, o)])] == a)",
+             "forall a, o | assert implies(0 <= a and a < len(regions) and 0 <= o and o < max_order and var_by_region_order[(a, o)].varValue == 1, "
+             "var_by_region_order[(a, orders[a])].varValue == 1)",
+             "forall a | assert implies(0 <= a and a < len(regions), var_by_region_order[(a, orders[a])].varValue == 1)",
+             # crossing regions: the adjacency constraint of the level of the first one
+             "forall a, b | assert implies(0 <= a and a < len(regions) and 0 <= b and b < len(regions) and cross(regions, a, b), a in G0 and b in G0[a])",
+             "forall a | assert implies(a in G0, exists(lambda p: 0 <= p and p < len(list(G0.keys())) and list(G0.keys())[p] == a))",
+             "forall a, b, o | assert implies(a in G0 and b in G0[a] and 0 <= o and o < max_order, (a, b, o) in ADJ)",
+             "forall a, b | assert implies(0 <= a and a < len(regions) and 0 <= b and b < len(regions) and cross(regions, a, b), "
+             "(a, b, orders[a]) in ADJ)",
+             "forall a, b | assert implies(0 <= a and a < len(regions) and 0 <= b and b < len(regions) and cross(regions, a, b), "
+             "adj_at(P0, var_by_region_order, ADJ, a, b, orders[a]))",
+             "forall a, b | assert implies(0 <= a and a < len(regions) and 0 <= b and b < len(regions) and cross(regions, a, b), "
+             "var_by_region_order[(a, orders[a])].varValue + var_by_region_order[(b, orders[a])].varValue <= 1)",
+             "forall a, b | assert implies(0 <= a and a < len(regions) and 0 <= b and b < len(regions) and cross(regions, a, b), "
+             "orders[a] != orders[b])",
+             "assert proper(regions, orders)"]},
     ]
 
 
